@@ -676,13 +676,11 @@ func c16WalkName(r *Run, fn *ssa.Function) {
 	dir := fn.Params[0]
 	names := fn.Params[1]
 	vps := findCalls(fn, "p9p.ValidPath")
-	cnts := findCalls(fn, "strings.Count")
-	if len(vps) != 1 || len(cnts) != 1 {
-		r.Bad("result", "WalkName: validates with ValidPath and bounds '..' by the depth", fn.Pos(), fmt.Sprintf("%d ValidPath calls, %d strings.Count calls", len(vps), len(cnts)))
+	if len(vps) != 1 {
+		r.Bad("result", "WalkName: validates with ValidPath and bounds '..' by the depth", fn.Pos(), fmt.Sprintf("%d ValidPath calls", len(vps)))
 		return
 	}
 	vp := vps[0]
-	_ = cnts
 	r.Check(vp.Call.Args[0] == ssa.Value(names), "result", "WalkName: validates the names it was given", vp.Pos(), "ValidPath is applied to something else")
 	// the bound the leading-'..' count is compared with: the other side of the comparisons with ValidPath's result
 	var depthVal ssa.Value
